@@ -19,7 +19,7 @@ RULES = {
            "EBNF recogniser + layout validator; non-trivial = strings with >=2 element terms or tuples or attributes",
     "C11": "for the canonical string of every class: all tuple permutations (m<=5), all endpoint-swap subsets "
            "(m<=6), each tuple duplicated, attribute blocks permuted/split/merged, every renumbering inside element "
-           "blocks (<=720); each respelling first confirmed by the reference reader; non-trivial = respellings "
+           "blocks (product <=120 quick / <=5040 thorough, else all transpositions); each respelling first confirmed by the reference reader; non-trivial = respellings "
            "whose text differs from the canonical one",
 }
 
@@ -165,7 +165,7 @@ def respellings(s, tier):
     for b in blocks:
         for k in range(2, len(b) + 1):
             total *= k
-    if total <= (720 if tier == "quick" else 5040):
+    if total <= (120 if tier == "quick" else 5040):
         perms = product(*[permutations(b) for b in blocks])
     else:
         # all single transpositions inside blocks + block reversals
@@ -224,9 +224,14 @@ def check_c11(s, tier, counters):
         if n1 != s:
             out.append((f"C11|{kind}", f"norm({s2!r}) = {n1!r} but the canonical string is {s!r}", s2))
             continue
-        n2 = tucan_of(graph_from_tucan(n1))
-        if n2 != n1:
-            out.append((f"C11|{kind}|idempotence", f"norm(norm({s2!r})) = {n2!r} != {n1!r}", s2))
+        # idempotence: here n1 == s, so norm(norm(s')) = norm(s); evaluated once per class below
+    try:
+        ns = tucan_of(graph_from_tucan(s))
+        counters["exec"] += 1
+        if ns != s:
+            out.append(("C11|idempotence", f"norm({s!r}) = {ns!r}: normalisation is not idempotent", s))
+    except Exception as ex:
+        out.append(("C11|idempotence|exc", f"norm({s!r}) raises {type(ex).__name__}", s))
     return out
 
 
@@ -388,12 +393,12 @@ def run(prop: str, tier: str) -> int:
     if tier == "thorough":
         spaces = e1.THOROUGH_SPACES
         if prop == "C11":
-            spaces = e1.QUICK_SPACES + [(4, e1.A6, None), (6, e1.A2, None)]
+            spaces = e1.QUICK_SPACES + [(4, e1.A6, None)]
     else:
         spaces = e1.QUICK_SPACES
         if prop == "C11":
-            spaces = [(1, e1.A6, None), (2, e1.A6, None), (3, e1.A6, None), (4, e1.A4, None), (5, e1.A3, None),
-                      (6, e1.A1, None)]
+            spaces = [(1, e1.A6, None), (2, e1.A6, None), (3, e1.A6, None), (4, e1.A4, None),
+                      (5, e1.alphabet(G.C, G.CRAD), None), (5, e1.A2, None), (6, e1.A1, None)]
     shards = e1.space_shards(spaces)
     for shard, res in pmap(run_roots_shard, [(prop, sh, tier) for sh in shards]):
         rep.add(states=res["states"], transitions=res["transitions"], traces_validated_against_impl=res["exec"],
